@@ -862,6 +862,22 @@ theorem indexOK_fork {s : IState} (ok : IndexOK s) (f : FUid) (h' : HUid) (nm0 :
         · rw [t3]; exact hst1 _
 
 
+/-! #### a single direct removal -/
+
+theorem indexOK_rmHead {s : IState} (ok : IndexOK s) (f : FUid) (h : HUid)
+    (hg : (Op.rmHead f h).guard s = true) : IndexOK (step s (.rmHead f h)) := by
+  simp only [step]
+  have hins := insts_rawRemove s (f, h)
+  apply indexOK_of ok (mc_rawRemove ok.maps _) (uidsUnique_of_insts_eq hins ok.uids)
+  intro k
+  rw [reg_rawRemove, want_of_insts_eq hins, instStatus_of_insts_eq hins]
+  by_cases hk : k = (f, h)
+  · subst hk
+    simp only [Op.guard, Option.isNone_iff_eq_none] at hg
+    left; simp [hg]
+  · right; simp only [hk, if_false]
+    exact ⟨trivial, fun he => (headExists_of_insts_eq hins k).2 he, Or.inr ⟨trivial, trivial⟩⟩
+
 /-! ### every operation, with and without its guard -/
 
 theorem mc_touchHead {s : IState} (hm : MapsConsistent s) (f : FUid) (h : HUid) (g : Head → Head) :
@@ -902,6 +918,7 @@ theorem mapsConsistent_step {s : IState} (hm : MapsConsistent s) (op : Op) : Map
     cases findInst s f with
     | none => exact hm
     | some i => exact mc_modifyInst ((foldl_rawRemove_spec f i.heads s).2.2 hm) _ _
+  | rmHead f h => exact mc_rawRemove hm _
   | clearHeads f => exact mc_modifyInst hm _ _
   | mainRestart f h nm0 =>
     simp only [step]
@@ -930,6 +947,7 @@ theorem indexOK_step {s : IState} (ok : IndexOK s) (op : Op) (hg : op.guard s = 
   | fork f h' nm0 p nm => exact indexOK_fork ok f h' nm0 p nm hg
   | delHead f h => exact indexOK_delHead ok f h hg
   | dropHeads f => exact indexOK_dropHeads ok f
+  | rmHead f h => exact indexOK_rmHead ok f h hg
   | clearHeads f => exact indexOK_clearHeads ok f hg
   | mainRestart f h nm0 => exact indexOK_mainRestart ok f h nm0 hg
   | setFlowStatus f st => exact indexOK_setFlowStatus ok f st hg
